@@ -119,6 +119,13 @@ func init() {
 					}
 				case *server.DnsServer:
 					sec = fmt.Sprint(b2i(v.VerifSecure()))
+					if strings.Contains(text, "tcp") {
+						// DNS over a stream socket: with the TLS marker the listener answers a TLS hello, without it it does not
+						wire = probe(v.VerifAddr())
+						if wire == "silent" || wire == "none" {
+							wire = "plain" // a DNS server does not answer what is not a DNS message
+						}
+					}
 				case *server.HttpServer:
 					sec = fmt.Sprint(b2i(v.VerifSecure()))
 					wire = probe(v.Address.Host)
